@@ -35,21 +35,20 @@ theorem length_flatMap_const {α β : Type} (f : α → List β) (w : Nat) (hf :
 theorem decodeFloats_encodeFloats (P : Params) (d : Digits) (fails : Bool) (vs : Shape) (items : List Item)
     (h : FloatExact P d) : decodeFloats P (encodeFloats P d fails vs items) = items := by
   unfold encodeFloats
-  split
-  · rfl
-  · cases d with
-    | double =>
-      cases fails
-      · simp [decodeFloats, P.fpzip.roundtrip]
-      · rfl
-    | single =>
-      rcases h with h | h
-      · cases h
-      · simp [decodeFloats, h]
-    | num =>
-      rcases h with h | h
-      · cases h
-      · simp [decodeFloats, h]
+  by_cases hc : asize items ≤ P.cutoff
+  · simp [hc, decodeFloats]
+  · cases fails
+    · cases d with
+      | double => simp [hc, decodeFloats, P.fpzip.roundtrip]
+      | single =>
+        rcases h with h | h
+        · cases h
+        · simp [hc, decodeFloats, h]
+      | num =>
+        rcases h with h | h
+        · cases h
+        · simp [hc, decodeFloats, h]
+    · simp [hc, decodeFloats]
 
 theorem encodeFloats_vshape (P : Params) (d : Digits) (fails : Bool) (vs : Shape) (items : List Item) :
     (encodeFloats P d fails vs items).vshape = vs := by
